@@ -1,8 +1,6 @@
 #!/bin/bash
-# runs every thorough check in sequence (used with `vp run --with-repo`); prints one verdict line per property
+# runs every thorough check (used with `vp run --with-repo`), THOROUGH_P at a time (default 2); prints one verdict line per property
 cd "$(dirname "$0")/.."
 [ -n "${VP_RUN_REPO:-}" ] && export VERIF_REPO=$VP_RUN_REPO
 ./setup.sh > setup.log 2>&1
-for id in $(ls checks/C*.py | sed 's/.*\(C[0-9]*\).py/\1/'); do
-  /usr/bin/time -f "$id wall %es" ./check $id --tier thorough 2>&1 | grep -E "^(VIOLATION|C[0-9]+:|C[0-9]+ wall)" | cut -c1-300
-done
+ls checks/C*.py | sed 's/.*\(C[0-9]*\).py/\1/' | xargs -P ${THOROUGH_P:-2} -I{} sh -c '/usr/bin/time -f "{} wall %es" ./check {} --tier thorough 2>&1 | grep -E "^(VIOLATION|C[0-9]+:|C[0-9]+ wall)" | cut -c1-300'
